@@ -171,15 +171,17 @@ class ConnWorld:
             elif k in ('commit', 'abort', 'close'):
                 ops.append((k,))
             elif k == 'rival':
-                if m['a'].dirty and not self.handles and \
-                        not getattr(self, 'rivalled', False):
+                if m['a'].dirty and not getattr(self, 'rivalled', False) \
+                        and (not self.handles
+                             or spec.get('rival_with_savepoints')):
                     ops.append(('rival',))
             elif k in ('commit-vote-fail', 'commit-finish-fail'):
                 if self.joined:
                     ops.append((k,))
             elif k == 'savepoint':
-                if len(self.handles) < spec.get('max_handles', 2) and \
-                        not getattr(self, 'rivalled', False):
+                if len(self.handles) < spec.get('max_handles', 2) and (
+                        not getattr(self, 'rivalled', False)
+                        or spec.get('rival_with_savepoints')):
                     ops.append(('savepoint',))
             elif k == 'rollback':
                 ops += [('rollback', j) for j in range(len(self.handles))]
@@ -206,8 +208,12 @@ class ConnWorld:
         for n, mo in self.model.items():
             if mo.owned and (mo.dirty or mo.new_in_txn):
                 stored.add(n)
-            if mo.owned:
                 mo.committed = mo.value
+            elif mo.owned:
+                # not written by us: the boundary shows what is committed
+                # (a rival may have committed since we last looked)
+                mo.value = mo.committed
+            if mo.owned:
                 mo.c_in_root = mo.in_root
             mo.dirty = False
             mo.new_in_txn = False
@@ -245,6 +251,19 @@ class ConnWorld:
             self.dead = True
             out = 'error'
         self.outcomes.append(out)
+        # the observer looks at everything after every step (the oracle runs
+        # only at the end of a replayed history), so that its cache holds
+        # the objects as of its last look and a missing invalidation shows
+        try:
+            self.tm2.abort()
+            oroot = self.obs.root()
+            for key in list(oroot.keys()):
+                try:
+                    self._val(oroot[key])
+                except Exception:
+                    pass
+        except Exception:
+            pass
         return out
 
     def _apply(self, op):
@@ -305,7 +324,11 @@ class ConnWorld:
             sp.rollback()
             for n in m:
                 cur_value = m[n].value
+                cur_committed = (m[n].committed, m[n].c_in_root)
                 m[n] = snap[n].copy()
+                # what is committed is not the savepoint's business (a rival
+                # may have committed since)
+                m[n].committed, m[n].c_in_root = cur_committed
                 if not m[n].owned:
                     # an object that was not in the database at the savepoint
                     # is un-added; its in-memory attributes are nobody's
